@@ -93,7 +93,12 @@ def ring_step(ad: RingAdapter, op, args, exp, pre, post, seed=0):
         ad.buf.add_sample(**ad.profile.encode(args[0]))
     elif op == "Sample":
         idx, mlen = args
-        got = sample_by_index(ad.buf, ad.kind, idx, mlen, ad.profile)
+        if getattr(ad, "reweighed", False):
+            # priorities differ (walks): indices cannot be steered through the generator stub any more; membership only
+            real_rng_sample(ad.buf, ad.kind, ad.profile, {i for i in pre["store"] if i}, seed + 3, b=len(idx))
+            got = None
+        else:
+            got = sample_by_index(ad.buf, ad.kind, idx, mlen, ad.profile)
         if got is None:
             ad.skipped += 1
         elif got != list(exp):
@@ -103,8 +108,21 @@ def ring_step(ad: RingAdapter, op, args, exp, pre, post, seed=0):
             raise Mismatch(f"len() = {len(ad.buf)}, model {exp[0]}")
         if pre is not None and pre["len"] > 0:
             real_rng_sample(ad.buf, ad.kind, ad.profile, {i for i in pre["store"] if i}, seed)
+    elif op == "Reweigh":
+        # priorities are invisible to the storage model: sample a batch under a real generator, write priorities
+        # below / at / above the initial priority to it, and sample again - still only stored transitions
+        if ad.kind != "ReplayBuffer" and pre is not None and pre["len"] > 0:
+            stored = {i for i in pre["store"] if i}
+            b = min(2, pre["len"])
+            real_rng_sample(ad.buf, ad.kind, ad.profile, stored, seed + 1, b=b)
+            ad.buf.update_priority(np.full((b,), REWEIGH[args[0]], dtype=np.float64))
+            ad.reweighed = True
+            real_rng_sample(ad.buf, ad.kind, ad.profile, stored, seed + 2)
     else:  # pragma: no cover
         raise AssertionError(op)
+
+
+REWEIGH = {1: 1.0 / 16, 2: 1.0, 3: 4.0}
 
 
 def ring_project(ad: RingAdapter):
@@ -222,6 +240,12 @@ def run(rep):
                 )
                 edges_total += res["edges_tested"]
                 rep.traces += res["edges_tested"]
+                # histories on one live object (priority writes and samples interleaved with additions)
+                wres = graph.walks(G, root, lambda: RingAdapter(cls, prof, n),
+                                   lambda o, op, a, e, pre, post: ring_step(o, op, a, e, pre, post, rep.seed), ring_project,
+                                   n=12, max_len=4 * n + 8, seed=rep.seed + n)
+                rep.traces += wres["walks"]
+                res["violations"] += wres["violations"]
                 for v in res["violations"]:
                     rep.violation(
                         f"{cls}:{v['path'][-1]['op']}:{v['code']}",
